@@ -43,6 +43,18 @@ class _CycleAccessor:
 _cycle = _CycleAccessor()
 
 
+class _NotWritten:
+    """Falsy placeholder for `memory.fully_handled_once` during one `process_changing_cause` pass."""
+    def __bool__(self) -> bool:
+        return False
+
+    def __repr__(self) -> str:
+        return "<not written>"
+
+
+_NOT_WRITTEN = _NotWritten()
+
+
 def _jsonable(x: Any, depth: int = 0) -> Any:
     if depth > 12:
         return repr(x)
@@ -459,13 +471,20 @@ def installed(obs: Observer) -> Iterator[None]:
         rec["pcc"] = info
         # whether THIS pass closes the cycle (`done or skip`): the flag is only written inside, never read there
         mem_ = kw["memory"]
+        # (a falsy sentinel instead of a plain False, so that a write of False by the code under test — the flag
+        # cleared again by a pass — is told from "not written" and is NOT repaired here: white-box review C05 m6)
         prev_flag = mem_.fully_handled_once
-        mem_.fully_handled_once = False
+        mem_.fully_handled_once = _NOT_WRITTEN
         try:
             out = await orig_pcc(**kw)
         finally:
-            info["closed"] = bool(mem_.fully_handled_once)
-            mem_.fully_handled_once = prev_flag or info["closed"]
+            written = mem_.fully_handled_once
+            info["closed"] = bool(written)
+            if written is _NOT_WRITTEN:
+                mem_.fully_handled_once = prev_flag
+            else:
+                info["flag_written"] = bool(written)
+                mem_.fully_handled_once = bool(written)
         info["delays"] = [float(d) for d in out]
         info["memory_fully_handled_once"] = kw["memory"].fully_handled_once
         return out
